@@ -1,7 +1,7 @@
 (* C05 — link layer after the handshake.  Property theorems only; proofs in LinkFrameProofs.v.
    Partial: the theorems cover the reader's logic on every byte stream under an ideal AEAD;
    goroutine scheduling, socket behaviour and how long a close takes are observed only. *)
-From Verif Require Import Prelude Seq SeqProofs LinkFrame LinkFrameProofs.
+From Verif Require Import Prelude Gen Seq SeqProofs LinkFrame LinkFrameProofs Translated.
 
 (* For every byte stream an attacker can put on the wire — any edit of the honest stream or
    arbitrary bytes — every frame the reader delivers is byte-identical to the inner frame of a
@@ -38,3 +38,17 @@ Theorem C05_wire_opaque : forall chunk, (lf_offset + lf_overhead <= length chunk
   length (inner_of chunk) = (length chunk - lf_offset - lf_overhead)%nat.
 Proof. exact wire_opaque. Qed.
 Print Assumptions C05_wire_opaque.
+
+(* ---------- the translated source (Translated.v) ----------
+   LinkFrame.SequenceNum / SetSequenceNum are translated from peering/link_frame.go on every run:
+   the sequence number is the big-endian value of bytes 4..7, which is where the model reads it,
+   and the getter inverts the setter. *)
+Theorem C05_source_link_seq_is_model : forall l0 l1 v r s0 s1 s2 s3 rest,
+  seq_of (l0 :: l1 :: v :: r :: s0 :: s1 :: s2 :: s3 :: rest) = Gen.go_LinkFrame_SequenceNum s0 s1 s2 s3.
+Proof. exact go_link_seq_is_model. Qed.
+Print Assumptions C05_source_link_seq_is_model.
+
+Theorem C05_source_link_seq_roundtrip : forall a b c d n, n < 2 ^ 32 ->
+  let '(a', b', c', d') := Gen.go_LinkFrame_SetSequenceNum a b c d n in Gen.go_LinkFrame_SequenceNum a' b' c' d' = n.
+Proof. exact go_link_seq_roundtrip. Qed.
+Print Assumptions C05_source_link_seq_roundtrip.
